@@ -653,7 +653,11 @@ impl<P: RuntimeProvider + Send + Sync> SqliteZoneHandler<P> {
             let class: DNSClass = rr.dns_class;
             if class == self.in_memory.class() {
                 match rr.record_type() {
-                    RecordType::ANY | RecordType::AXFR | RecordType::IXFR => {
+                    // ANY, AXFR, IXFR, MAILB (253), MAILA (254): query metatypes
+                    RecordType::ANY
+                    | RecordType::AXFR
+                    | RecordType::IXFR
+                    | RecordType::Unknown(253 | 254) => {
                         return Err(ResponseCode::FormErr);
                     }
                     _ => (),
@@ -671,7 +675,9 @@ impl<P: RuntimeProvider + Send + Sync> SqliteZoneHandler<P> {
                         }
 
                         match rr.record_type() {
-                            RecordType::AXFR | RecordType::IXFR => {
+                            RecordType::AXFR
+                            | RecordType::IXFR
+                            | RecordType::Unknown(253 | 254) => {
                                 return Err(ResponseCode::FormErr);
                             }
                             _ => (),
@@ -682,7 +688,10 @@ impl<P: RuntimeProvider + Send + Sync> SqliteZoneHandler<P> {
                             return Err(ResponseCode::FormErr);
                         }
                         match rr.record_type() {
-                            RecordType::ANY | RecordType::AXFR | RecordType::IXFR => {
+                            RecordType::ANY
+                            | RecordType::AXFR
+                            | RecordType::IXFR
+                            | RecordType::Unknown(253 | 254) => {
                                 return Err(ResponseCode::FormErr);
                             }
                             _ => (),
